@@ -37,6 +37,7 @@ type c14Backend struct {
 	seen  map[string]int
 	calls int
 	delay time.Duration // latency of the directory (LDAP / Okta are network services)
+	probe func()        // runs inside every lookup (the ordering probe reads the limiter here)
 }
 
 func (b *c14Backend) PasswordAuthenticate(username string, password []byte) (bool, error) {
@@ -44,7 +45,11 @@ func (b *c14Backend) PasswordAuthenticate(username string, password []byte) (boo
 	b.seen[username]++
 	b.calls++
 	d := b.delay
+	pr := b.probe
 	b.mu.Unlock()
+	if pr != nil {
+		pr()
+	}
 	if d > 0 {
 		time.Sleep(d)
 	}
@@ -239,7 +244,36 @@ func c14Garbage(secret string, now time.Time) int {
 	}
 }
 
+// one pass of the periodic cleanup of the tree under check (set by a file generated at check time
+// from the loop body of performStateCleanup, see lib/checks/loopbody.py); nil if that failed
+var c14CleanupOnce func(*RuntimeState)
+
+// the attempts and cleanup passes of one user so far, for the replay file
+func c14History(obs []c14TotpObs, ui int) []string {
+	var h []string
+	var t0 int64
+	for _, o := range obs {
+		if o.user != ui {
+			continue
+		}
+		if t0 == 0 {
+			t0 = o.t
+		}
+		at := fmt.Sprintf("+%.1fs", float64(o.t-t0)/1e9)
+		if o.cleanup {
+			h = append(h, at+" cleanup-pass")
+		} else {
+			h = append(h, fmt.Sprintf("%s %s accepted=%v failCount=%d", at, []string{"fresh-code", "used-code", "wrong-code"}[o.verdict], o.ok, o.fc))
+		}
+	}
+	if len(h) > 40 {
+		h = h[len(h)-40:]
+	}
+	return h
+}
+
 type c14TotpObs struct {
+	cleanup bool // a cleanup pass at time t; lc..lo = the user's entry after it
 	user    int
 	tm      int64 // time fed to the model: the stored clock reading if there is one, else t
 	t       int64
@@ -437,6 +471,80 @@ func TestVerif_C14(t *testing.T) {
 			res.hit(verifHit{Key: "C14:harness:good-login-refused:" + o.entry, Oracle: "harness", What: fmt.Sprintf("%s with the right password answered %d", o.entry, o.status), Case: o.entry})
 		}
 	}
+	// phase 0: the ORDER of the two calls, probed dynamically: a limiter that practically never refills
+	// (1000 tokens, one more per 10^6 s) and a backend that reads the limiter while it is being asked —
+	// when the lookup runs, this attempt's token must already be gone.  Every entry point, right and
+	// wrong password.
+	{
+		oenv := verifSetup(t, func(c *AppConfigFile, dir string) {
+			c.Base.AllowedAuthBackendsForWebUI = []string{"password"}
+			c.Base.AllowedAuthBackendsForCerts = []string{"U2F"}
+		})
+		lim := rate.NewLimiter(rate.Limit(1e-6), 1000)
+		oenv.state.passwordAttemptGlobalLimiter = lim
+		var atBackend []float64
+		ob := &c14Backend{seen: map[string]int{}}
+		ob.probe = func() { atBackend = append(atBackend, lim.Tokens()) }
+		oenv.state.passwordChecker = ob
+		round := func(f float64) int64 { return int64(math.Floor(f + 0.5)) }
+		coq.WriteString("(* ordering probe: (tokens before the request, tokens the backend saw during its lookup, tokens after) *)\nDefinition ord_cases : list (Z * Z * Z) := [")
+		first := true
+		for _, entry := range []string{"form", "login-basic", "checkauth-basic"} {
+			for _, good := range []bool{false, true} {
+				user := newUser()
+				pw := "bad"
+				if good {
+					pw = "good-" + user
+				}
+				var req *http.Request
+				switch entry {
+				case "form":
+					f := url.Values{}
+					f.Set("username", user)
+					f.Set("password", pw)
+					req = verifNewRequest("POST", "/api/v0/login", f)
+				case "login-basic":
+					req = verifNewRequest("POST", "/api/v0/login", url.Values{})
+					req.SetBasicAuth(user, pw)
+				default:
+					req = verifNewRequest("GET", profilePath, nil)
+					req.SetBasicAuth(user, pw)
+				}
+				atBackend = nil
+				before := lim.Tokens()
+				rr, _ := oenv.serve(req)
+				after := lim.Tokens()
+				res.eval(fmt.Sprintf("order|%s|%v|%d|%d", entry, good, rr.Code, len(atBackend)), true)
+				res.bump("handler:order-probe")
+				if len(atBackend) != 1 {
+					res.hit(verifHit{Key: "C14:handler:backend-calls:" + entry, Oracle: "an attempt that is let through reaches the backend exactly once",
+						What: fmt.Sprintf("%s attempt on a full limiter: %d backend invocations (status %d)", entry, len(atBackend), rr.Code), Case: map[string]interface{}{"entry": entry, "phase": "order"}})
+					continue
+				}
+				if atBackend[0] > before-0.5 {
+					res.hit(verifHit{Key: "C14:handler:backend-before-limiter:" + entry, Oracle: "the limiter is consulted (and charged) before the password backend is asked",
+						What: fmt.Sprintf("%s attempt: the limiter held %.3f tokens before the request and still %.3f while the backend was looking the password up (%.3f after the request)", entry, before, atBackend[0], after),
+						Case: map[string]interface{}{"entry": entry, "phase": "order", "good_password": good}})
+				}
+				if !first {
+					coq.WriteString(";")
+				}
+				first = false
+				coq.WriteString(fmt.Sprintf("(%d,%d,%d)", round(before), round(atBackend[0]), round(after)))
+				idx.WriteString(fmt.Sprintf("order %s good=%v\t%.3f %.3f %.3f\n", entry, good, before, atBackend[0], after))
+			}
+		}
+		coq.WriteString(`].
+Definition ord_cfg := mkcfg 1 1000000 1000.
+Definition ord_bad (x : Z * Z * Z) : bool :=
+  let '(before, seen, after) := x in
+  let s := {| last := 0; T := before * C ord_cfg |} in
+  let r := login_step ord_cfg s Form 0 PwBad in
+  negb (backend_called (snd r) && (T (fst r) =? seen * C ord_cfg) && (T (fst r) =? after * C ord_cfg)).
+Definition c14_order_mismatches := Eval vm_compute in mismatches ord_bad ord_cases.
+Print c14_order_mismatches.
+`)
+	}
 	var seq []hObs
 	// phase 1: a sequential burst over all entry points (fresh bucket), then a pause, then more
 	nBurst := 45
@@ -606,9 +714,13 @@ Definition first_n_called (n : nat) (l : list (Z * Z * bool)) : bool := forallb 
 		tt.enroll(t, u)
 	}
 	gaps := []int64{0, 311e6, 1523e6, 1789e6, 2213e6, 2531e6, 5037e6, 60071e6, 3598113e6, 3602127e6, 7198139e6, 7202149e6, 3*3600e9 + 157e6, 24*3600e9 - 10163e6, 24*3600e9 + 10171e6, 30*3600e9 + 181e6}
-	nScen, scenLen := 40, 30
+	nScen, scenLen := 44, 30
 	if thorough {
-		nScen, scenLen = 400, 60
+		nScen, scenLen = 404, 60
+	}
+	const nSkel = 8
+	if c14CleanupOnce == nil {
+		res.bump("totp:no-cleanup-hook")
 	}
 	var scen [][]c14TotpObs
 	virtual := time.Now().UnixNano()
@@ -628,9 +740,9 @@ Definition first_n_called (n : nat) (l : list (Z * Z * bool)) : bool := forallb 
 			} else {
 				gap = gaps[rng.Intn(7)]
 			}
-			if s < 4 { // deterministic skeletons: spaced failures only / with lock-out waits
+			if s < nSkel { // deterministic skeletons: spaced failures only / with lock-out waits; 4..7 = 0..3 with cleanup passes
 				gap = 2200e6
-				if s >= 2 && i%6 == 5 {
+				if s%4 >= 2 && i%6 == 5 {
 					gap = int64(i/6+1)*3600e9 + 3e9
 				}
 			}
@@ -640,6 +752,34 @@ Definition first_n_called (n : nat) (l : list (Z * Z * bool)) : bool := forallb 
 				ui = 1
 			}
 			user := users[ui]
+			// a pass of the periodic cleanup between two guesses (the daemon makes one every 30 s):
+			// skeletons 4..7 make one before every guess, the random scenarios before a quarter of them
+			if c14CleanupOnce != nil && (s >= 4 && s < nSkel || s >= nSkel && rng.Intn(4) == 0) {
+				for { // off the knife edges of every entry, whatever a cleanup may compare
+					moved := false
+					for _, u := range users {
+						lc, _, lf, lo := tt.entry(u)
+						near := func(b int64) bool { d := virtual - b; return d > -120e6 && d < 120e6 }
+						if (lc != 0 && near(lc+2e9)) || (lo != 0 && near(lo)) || (lf != 0 && near(lf+24*3600e9)) {
+							moved = true
+						}
+					}
+					if !moved {
+						break
+					}
+					virtual += 250e6
+					res.bump("totp:knife-edge-avoided")
+				}
+				tt.setVirtual(virtual)
+				c14CleanupOnce(tenv.state)
+				res.bump("totp:cleanup-pass")
+				for cu := range users {
+					o := c14TotpObs{cleanup: true, user: cu, t: virtual, tm: virtual, verdict: 3}
+					o.lc, o.fc, o.lf, o.lo = tt.entry(users[cu])
+					obs = append(obs, o)
+				}
+				virtual += 30e6 + rng.Int63n(400e6) // the guess follows a little later
+			}
 			// stay off the knife edges of the three comparisons (the code reads the clock a little
 			// later than the harness sets it)
 			for {
@@ -653,7 +793,7 @@ Definition first_n_called (n : nat) (l : list (Z * Z * bool)) : bool := forallb 
 				break
 			}
 			verdict := 2
-			if s >= 4 {
+			if s >= nSkel {
 				switch x := rng.Intn(6); {
 				case x == 0:
 					verdict = 0
@@ -662,7 +802,7 @@ Definition first_n_called (n : nat) (l : list (Z * Z * bool)) : bool := forallb 
 				case failBias == 2 && x < 4:
 					verdict = 0
 				}
-			} else if s == 1 && i == 7 || s == 3 && i == 20 {
+			} else if s%4 == 1 && i == 7 || s%4 == 3 && i == 20 {
 				verdict = 0
 			}
 			now := time.Now()
@@ -711,8 +851,16 @@ Definition first_n_called (n : nat) (l : list (Z * Z * bool)) : bool := forallb 
 			lockedUntil, lockK := int64(0), int64(0)
 			prevLc := int64(0)
 			streak, lastFailGhost := int64(0), int64(0) // the harness's own count of consecutive evaluated failures
-			for _, o := range obs {
+			cleanupInStreak := false                    // a cleanup pass ran since the current streak of failures began
+			for oi, o := range obs {
 				if o.user != ui {
+					continue
+				}
+				if o.cleanup {
+					// a cleanup pass is not an attempt: the ghost streak, the lock-out deadline and the
+					// time of the last evaluation are the property's and stay as they are
+					cleanupInStreak = streak > 0 || cleanupInStreak
+					prevLc = o.lc
 					continue
 				}
 				passed := o.lc != prevLc
@@ -738,12 +886,14 @@ Definition first_n_called (n : nat) (l : list (Z * Z * bool)) : bool := forallb 
 				switch o.verdict {
 				case 0:
 					streak = 0
+					cleanupInStreak = false
 					if !o.ok {
 						res.hit(verifHit{Key: "C14:harness:fresh-code-refused", Oracle: "harness", What: fmt.Sprintf("a fresh correct code of %s outside any lock-out was refused", users[ui]), Case: map[string]interface{}{"scenario": s}})
 					}
 				case 2:
 					if lastFailGhost != 0 && lastFailGhost+24*3600e9 < o.t {
 						streak = 0
+						cleanupInStreak = false
 					}
 					streak++
 					lastFailGhost = o.t
@@ -751,8 +901,12 @@ Definition first_n_called (n : nat) (l : list (Z * Z * bool)) : bool := forallb 
 						k := streak / 5
 						want := o.t + k*3600e9
 						if o.lo < want-200e6 {
-							res.hit(verifHit{Key: "C14:totp:no-lockout", Oracle: "the 5k-th consecutive failure locks verification out for k hours",
-								What: fmt.Sprintf("%s: consecutive failure no. %d; lock-out ends %d s later (expected %d s)", users[ui], streak, (o.lo-o.t)/1e9, k*3600), Case: map[string]interface{}{"scenario": s, "failures": streak}})
+							key, extra := "C14:totp:no-lockout", ""
+							if cleanupInStreak {
+								key, extra = "C14:totp:no-lockout:cleanup-pass", " (cleanup passes ran between these failures)"
+							}
+							res.hit(verifHit{Key: key, Oracle: "the 5k-th consecutive failure locks verification out for k hours",
+								What: fmt.Sprintf("%s: consecutive failure no. %d%s; lock-out ends %d s later (expected %d s)", users[ui], streak, extra, (o.lo-o.t)/1e9, k*3600), Case: map[string]interface{}{"scenario": s, "failures": streak, "history": c14History(obs[:oi+1], ui)}})
 						}
 						lockedUntil, lockK = want, k
 					}
@@ -780,10 +934,17 @@ Definition rl_of (o : Z * Z * Z * Z) : rl := let '(lc, fc, lf, lo) := o in {| la
 Definition entry_ok (m : rl) (o : Z * Z * Z * Z) : bool :=
   let '(lc, fc, lf, lo) := o in
   (last_check m =? lc) && (fail_count m =? fc) && later 5000000000 (last_fail m) lf && later 5000000000 (lockout m) lo.
+(* verdict code 3: a cleanup pass at time t; the entry of user u after it must be exactly what the
+   model's cleanup (the code's policy: nothing is purged) leaves *)
+Definition entry_same (m : rl) (o : Z * Z * Z * Z) : bool :=
+  let '(lc, fc, lf, lo) := o in
+  (last_check m =? lc) && (fail_count m =? fc) && (last_fail m =? lf) && (lockout m =? lo).
 Fixpoint totp_agree (m : users) (l : list (N * Z * Z * bool * (Z * Z * Z * Z))) (i : nat) : list nat :=
   match l with [] => [] | (u, t, v, ok, obs) :: r =>
-    let (s1, o) := attempt totp_k true (m u) t (verdict_of v) in
-    let good := Bool.eqb (accepted o) ok && entry_ok s1 obs in
+    let good :=
+      if v =? 3 then entry_same (cleanup totp_k purge_never (m u) t) obs
+      else let (s1, o) := attempt32 totp_k true (m u) t (verdict_of v) in
+           Bool.eqb (accepted o) ok && entry_ok s1 obs in
     (if good then [] else [i]) ++ totp_agree (upd m u (rl_of obs)) r (S i) end.
 `)
 	coq.WriteString("Definition totp_cases : list (list (N * Z * Z * bool * (Z * Z * Z * Z))) := [\n")
